@@ -4777,13 +4777,8 @@ namespace detail {
                                 ++p_;
                                 ++column_;
                                 break;
-                            case '\'':
-                                state_stack.back() = expr_state::expect_colon;
-                                state_stack.push_back(expr_state::raw_string);
-                                ++p_;
-                                ++column_;
-                                break;
                             default:
+                                // keyval-expr = identifier ":" expression: a raw string ('...') is not an identifier
                                 if ((*p_ >= 'A' && *p_ <= 'Z') || (*p_ >= 'a' && *p_ <= 'z') || (*p_ == '_'))
                                 {
                                     state_stack.back() = expr_state::expect_colon;
